@@ -215,7 +215,22 @@ func runC09Forced(a childArgs) error {
 	if err := apply(0, nil); err != nil {
 		return err
 	}
-	warm := a.idx % 3
+	warm := a.idx % 4
+	if warm == 3 {
+		// a cache manager with a one-byte budget: every cache is over budget, whatever is registered is evicted when
+		// a request ends -- also a cache its writer still holds; the next search then registers a cache of its own,
+		// built from the data before the commit
+		if err := env.sh.Close(); err != nil {
+			return err
+		}
+		env.cm = cache.NewManager(1)
+		env.sh, err = shard.NewShard(env.path, env.col, env.cm)
+		if err != nil {
+			return err
+		}
+		ps.inner = env.sh.VerifDB()
+		env.sh.VerifSwapDB(ps)
+	}
 	for step := 1; step <= nbatches && !hung; step++ {
 		_, docs, err := readAll(env.sh, g.pool)
 		if err != nil {
